@@ -1,6 +1,7 @@
 import RpylibModel.Basic.Proto
 import RpylibModel.Model.Pairing
 import RpylibModel.Model.PairingHyperbolic
+import RpylibModel.Model.PairingBound
 open Rpylib Rpylib.Pairing
 
 def parseKind? : String → Option Kind
@@ -28,8 +29,9 @@ def showOut (f : Nat → List Int) : Option Nat → String
   z1dpair <L> <R> <o> [xs]                    -> [pair(x),..]
   z1drun <L> <R> <o> [i1,i2,..]               -> `[outputs] <switch> <kk>` the object as coded, this call history
   lazy [sizes]                                -> [t;t;..]
-  sm1d <L> <R> <maxLogged> [xs]               -> `<out;out;..> <last> <maxFrontier>` (out = state or X)
+  sm1d <L> <R> <maxLogged> [xs]               -> `<out;out;..> <last> <max_frontier_indices>` (out = state or X; bound as coded since 94bedf1: maxEnum)
   smbox <kind> <o> [ns] <maxLogged> [xs]      -> same for a box grid with PairingToZd(kind, omit zero)
+  smfrontier <kind> <o> [ns]                  -> `<max(frontier_states)> <max_inside_index>` of a box grid, d >= 2
   hypproj <start> <count>                     -> [x,y;..]          HyperbolicPairing.projection2d, a block of indices
   hypprojmany [z,..]                          -> [x,y,n;..]        projection2d and upper_bound_a_n(z) for each z
   hyppairmany [x,y;..]                        -> [z,..]            HyperbolicPairing.pairing2d
@@ -94,7 +96,7 @@ def step (t : List String) : String :=
     match parseNat? l, parseNat? r, parseInt? ml, parseNatList? xs with
     | some l, some r, some ml, some xs =>
       let proj := fun i => [z1dProject l r 1 i]
-      let mf := maxFrontier (fun v => z1dPair l r 1 (v.headD 0)) l [l + r + 1]
+      let mf := maxEnum (fun v => z1dPair l r 1 (v.headD 0)) l [l + r + 1]
       let (nxt, outs) := smRunList (fun i => inBox l [l + r + 1] (proj i)) (mf + 1).toNat ml 0 xs
       ";".intercalate (outs.map (showOut proj)) ++ " " ++ toString ((nxt : Int) - 1) ++ " " ++ toString mf
     | _, _, _, _ => "bad-op"
@@ -102,7 +104,7 @@ def step (t : List String) : String :=
     match parseKind? k, parseNat? o, parseNatList? ns, parseInt? ml, parseNatList? xs with
     | some k, some o, some ns, some ml, some xs =>
       let proj := zdProject k.projD 1 ns.length
-      let mf := maxFrontier (zdPair k.pairN 1) o ns
+      let mf := maxEnum (zdPair k.pairN 1) o ns
       let (nxt, outs) := smRunList (fun i => inBox o ns (proj i)) (mf + 1).toNat ml 0 xs
       ";".intercalate (outs.map (showOut proj)) ++ " " ++ toString ((nxt : Int) - 1) ++ " " ++ toString mf
     | _, _, _, _, _ => "bad-op"
@@ -118,6 +120,10 @@ def step (t : List String) : String :=
     match parseListListWith? parseNat? xss with
     | some xss => showNatList (xss.map (fun t => match t with | [x, y] => hypPair x y | _ => 0))
     | none => "bad-op"
+  | ["smfrontier", k, o, ns] =>
+    match parseKind? k, parseNat? o, parseNatList? ns with
+    | some k, some o, some ns => toString (maxFrontier (zdPair k.pairN 1) o ns) ++ " " ++ toString (maxInside (zdPair k.pairN 1) o ns)
+    | _, _, _ => "bad-op"
   | ["hypprojd", d, a, c] =>
     match parseNat? d, parseNat? a, parseNat? c with
     | some d, some a, some c => showListList toString ((List.range c).map (fun i => hyperbolic.projD (a + i) d))
